@@ -10,10 +10,11 @@ ap = argparse.ArgumentParser()
 ap.add_argument("outdir"); ap.add_argument("k")
 ap.add_argument("--props", default="all"); ap.add_argument("--tier", default="quick")
 ap.add_argument("--seed", default="0")
+ap.add_argument("--tag", default="")
 a = ap.parse_args()
 src = a.outdir.rstrip("/")
 pid = os.path.basename(src)
-name = "%s-m%s" % (pid, a.k)
+name = "%s-%sm%s" % (pid, a.tag, a.k)
 patch = os.path.join(src, "m%s.diff" % a.k)
 demo = os.path.join(src, "m%s_demo.py" % a.k)
 meta_in = json.load(open(os.path.join(src, "m%s.json" % a.k)))
